@@ -240,12 +240,20 @@ fn make_body(stim: &Value, wire: &[u8], enc_trailers: Option<http::HeaderMap>, e
         "trailers_ok" => { let mut h = http::HeaderMap::new(); h.insert("grpc-status", "0".parse().unwrap()); q.push_back(BItem::Trailers(h)); script.push(json!({"k":"t","n":0,"at":p as u64})); }
         "trailers_err" => { let mut h = http::HeaderMap::new(); h.insert("grpc-status", "9".parse().unwrap()); h.insert("grpc-message", "tail".parse().unwrap()); q.push_back(BItem::Trailers(h)); script.push(json!({"k":"t","n":0,"at":p as u64})); }
         "enc" => { if let Some(t) = enc_trailers { q.push_back(BItem::Trailers(t)); script.push(json!({"k":"t","n":0,"at":p as u64})); } }
+        // trailers whose grpc-status is whatever bytes the peer chose (stim.tail_status): any trailers are trailers the stream must survive
+        "trailers_raw" => { let mut h = http::HeaderMap::new();
+            if let Ok(v) = http::HeaderValue::from_bytes(&json_bytes(&stim["tail_status"])) { h.insert("grpc-status", v); }
+            q.push_back(BItem::Trailers(h)); script.push(json!({"k":"t","n":0,"at":p as u64})); }
         "trailers_only_msg" => { let mut h = http::HeaderMap::new(); h.insert("grpc-message", "no status".parse().unwrap()); q.push_back(BItem::Trailers(h)); script.push(json!({"k":"t","n":0,"at":p as u64})); }
         "body_err" => { q.push_back(BItem::Err(Status::new(tonic::Code::from_i32(stim["body_err_code"].as_i64().unwrap_or(14) as i32), "body broke"))); script.push(json!({"k":"e","n":0,"at":p as u64})); }
         _ => {}
     }
     // projection of the tail: what the body ends with, and the status code it carries (if any)
     let (tail_kind, tail_code) = match q.back() {
+        // (a status value that is not the canonical decimal form of 0..16 is a malformed code: UNKNOWN)
+        Some(BItem::Trailers(t)) if tail == "trailers_raw" => match t.get("grpc-status").map(|v| v.as_bytes().to_vec()) {
+            None => ("none", -1),
+            Some(v) => match (0..=16i64).find(|c| c.to_string().as_bytes() == &v[..]) { Some(0) => ("trailers_ok", 0), Some(c) => ("trailers_err", c), None => ("trailers_err", 2) } },
         Some(BItem::Trailers(t)) => match t.get("grpc-status").and_then(|v| v.to_str().ok()).and_then(|v| v.parse::<i64>().ok()) {
             Some(0) => ("trailers_ok", 0), Some(c) => ("trailers_err", c), None => ("none", -1) },
         Some(BItem::Err(s)) => ("body_err", s.code() as i64),
@@ -462,12 +470,15 @@ pub fn gen_hostile(seed: u64, tier: &str) -> Vec<Value> {
             _ => { class = "valid_then_short_header"; let k = rng.gen_range(1..5); wire.extend(vec![0u8; k]); }
         }
         let role = if rng.gen_bool(0.5) { "server" } else { "client" };   // encoder role; decoder is the opposite
-        let tail = if role == "server" { ["none", "trailers_ok", "trailers_err", "body_err", "trailers_only_msg"][rng.gen_range(0..5)] } else { ["none", "none", "body_err"][rng.gen_range(0..3)] };
+        let tail = if role == "server" { ["none", "trailers_ok", "trailers_err", "body_err", "trailers_only_msg", "trailers_raw"][rng.gen_range(0..6)] } else { ["none", "none", "body_err"][rng.gen_range(0..3)] };
+        // hostile status values: every shape of one and two bytes around the digits, signs, blanks, long and empty values
+        let raw_status: Vec<u8> = { let pool: [&[u8]; 16] = [b"1/", b"1.", b"1 ", b"1\t", b"1-", b"17", b"1:", b"/1", b"-1", b"", b"00", b"016", b"99999999999999999999", b"0x1", b"\xff\xfe", b"1e1"];
+            if rng.gen_bool(0.7) { pool[rng.gen_range(0..pool.len())].to_vec() } else { vec![rng.gen_range(0x20..0x7f), rng.gen_range(0x20..0x7f)] } };
         out.push(json!({"kind":"dec","class":class,"role":role,"dec_enc":dec_enc,"enc":"identity","override":false,
             "codec": if prost {"prost"} else {"raw"}, "bufsz": (*[8usize, 64, 8192].get(rng.gen_range(0..3)).unwrap()), "yield": 32768,
             "limit_enc": -1, "limit_dec": (*[-1i64, -1, 7, 64].get(rng.gen_range(0..4)).unwrap()), "items": [], "wire": bytes_json(&wire),
             "cuts": rand_cuts(&mut rng), "body_pend": (0..rng.gen_range(0..3)).map(|_| rng.gen_range(0..6)).collect::<Vec<usize>>(),
-            "tail": tail, "tail_at": rng.gen_range(0..5), "extra_polls": 4,
+            "tail": tail, "tail_status": bytes_json(&raw_status), "tail_at": rng.gen_range(0..5), "extra_polls": 4,
             // the status code the transport error maps to (CANCELLED is special-cased by the decoder on request streams)
             "body_err_code": if rng.gen_bool(0.4) { 1 } else { rng.gen_range(1..17) }}));
     }
